@@ -2,7 +2,10 @@ module verif/harness
 
 go 1.25.0
 
-require github.com/mutagen-io/mutagen v0.0.0
+require (
+	github.com/mutagen-io/mutagen v0.0.0
+	google.golang.org/protobuf v1.36.11
+)
 
 require (
 	github.com/bmatcuk/doublestar/v4 v4.10.0 // indirect
@@ -17,7 +20,6 @@ require (
 	golang.org/x/sys v0.43.0 // indirect
 	golang.org/x/term v0.42.0 // indirect
 	golang.org/x/text v0.36.0 // indirect
-	google.golang.org/protobuf v1.36.11 // indirect
 )
 
 replace github.com/mutagen-io/mutagen => /repo
